@@ -32,7 +32,9 @@ RULE = (
     "both trees are processed by the real Processor and executed, each compared with the reference and with each "
     "other, and the call is repeated on the already processed base tree (transfers holding payloads); (iv) engine "
     "placement by per-engine operation counts; plus a sub-space whose join partner shares a NON-join column with the "
-    "base tree (reference undefined): the backtracking call is compared with the same call with backtrack=False; non-trivial = backtracking changed the tree upstream "
+    "base tree (reference undefined): the backtracking call is compared with the same call with backtrack=False; and a "
+    "sub-space in which calculations re-create tags that projections hide while upstream selections still read the "
+    "hidden originals (partial commutation below an existing projection); non-trivial = backtracking changed the tree upstream "
     "of the root; distinct = distinct (base tree, call) digests"
 )
 
@@ -106,6 +108,33 @@ SHADOW_JOINS = tuple(
 )
 
 
+# "hidden tag" sub-space: a calculation re-creates a tag that an existing projection hides while an
+# operation further upstream still reads the hidden original; a preferred-engine projection then commutes
+# only PARTIALLY below the existing projection (the upstream reader forces a wider one).
+HIDDEN_BASE = (
+    ("xfer", "e1"),
+    ("sel", spaces.P_C_GE_13),
+    ("sel", spaces.P_B_EQ_1),
+    ("proj", ("a", "b")),
+    ("proj", ("b",)),
+    ("calc", "c", spaces.A_PLUS_B),
+    ("dedup",),
+)
+HIDDEN_MENU = (
+    ("proj", ("a", "c")),
+    ("proj", ("a",)),
+    ("proj", ("c",)),
+    ("proj", ()),
+    ("sel", ("lt", R("c"), L(4))),
+    ("calc", "z", ("add", R("c"), L(1))),
+    S((R("c"), True)),
+)
+
+
+def hidden_ops():
+    return tuple(pe(op, "s", *f) for op in HIDDEN_MENU for f in spaces.FLAGSETS)
+
+
 def pe_ops():
     out = []
     for op in MENU:
@@ -125,6 +154,8 @@ def world():
     leaves = w.leaves + (
         LeafSpec("Kc", "s", ("a", "c"), ((1, 91), (2, 92), (2, 93))),
         LeafSpec("Kx", "s", ("x", "d"), ((-1, 7), (-2, 8), (-2, 9))),  # x: a key column the base trees *calculate*
+        # a fourth column, so that a widened projection {a,b,c} pushed into the source is not a no-op
+        LeafSpec("X4", "s", ("a", "b", "c", "n"), tuple(r + (10 * r[0],) for r in spaces.XROWS)),
         LeafSpec("Kn", "s", ("a", "n"), ((1, 5), (2, -6), (2, 7), (3, -3))),  # n: a NON-key column the base trees calculate
     )
     return World(engines=w.engines, leaves=leaves)
@@ -175,7 +206,7 @@ class C03(Check):
     pid = "C03"
 
     def __init__(self):
-        self.pe_set = set(pe_ops()) | set(SHADOW_JOINS)
+        self.pe_set = set(pe_ops()) | set(SHADOW_JOINS) | set(hidden_ops())
 
     def subspaces(self, tier):
         w = world()
@@ -183,6 +214,7 @@ class C03(Check):
         return [
             SubSpace(f"multi/base+pe/d{d}", w, ("X", "L"), BASE + pe_ops(), d),
             SubSpace(f"multi/shadow/d{d + 1}", w, ("X", "L"), SHADOW_BASE + SHADOW_JOINS, d + 1),
+            SubSpace(f"multi/hidden-tag/d{d + 2}", w, ("X4",), HIDDEN_BASE + hidden_ops(), d + 2),
         ]
 
     def judge(self, tr):
